@@ -212,6 +212,15 @@ class SymGen(object):
         self.lo, self.hi, self.getter, self.target, self.elt, self.frame = lo, hi, getter, target, elt, frame
 
 
+class FilteredGen(object):
+    """A generator expression `elt for x in seq if cond...` over a sequence of SYMBOLIC length, to be consumed by a `for`
+    loop that is cut at an invariant: the loop index runs over the underlying sequence, items failing a filter are
+    skipped (the loop body is not executed for them), the loop target is bound to the element expression."""
+
+    def __init__(self, lo, hi, getter, target, elt, ifs, frame):
+        self.lo, self.hi, self.getter, self.target, self.elt, self.ifs, self.frame = lo, hi, getter, target, elt, ifs, frame
+
+
 class Opt(object):
     """Either None or a value: (isnone: z3 Bool, val)."""
 
